@@ -23,13 +23,14 @@ type Oblig struct {
 	Hyp  *Term
 	Goal *Term
 	// filled by the discharger
-	Verdict  string
-	Solver   string
-	Secs     float64
-	Model    map[string]*big.Int
-	Note     string
-	Mode     string
-	Concrete bool // found with every contract switched off: inputs are inputs of the real code
+	Verdict   string
+	Solver    string
+	Secs      float64
+	Model     map[string]*big.Int
+	Note      string
+	Mode      string
+	SelfCheck bool
+	Concrete  bool // found with every contract switched off: inputs are inputs of the real code
 }
 
 type Ctx struct {
@@ -60,6 +61,7 @@ type Ctx struct {
 	asmFuncs    map[string]*AsmFunc
 	cases       map[string]int
 	maxInstr    int64
+	cutFix      string
 	nInstr      int64
 }
 
@@ -403,6 +405,9 @@ func (c *Ctx) callFunction(fn *ssa.Function, args []Value, bind []Value, st *Sta
 				return []Outcome{{st, r}}
 			}
 		}
+	}
+	if c.cutSpec != nil && c.cutSpec.fn == fn && !c.cutSpec.done {
+		return c.execCut(fn, args, bind, st)
 	}
 	if c.ctCheck && c.vartimeRe != nil && c.vartimeRe.MatchString(name) {
 		c.checkVartimeCall(st, fn, args, site)
